@@ -48,7 +48,9 @@ Denotes(style, text, value) ==
 Units(style) ==
   LET q == Quote(style) o == IF q = SQ THEN DQ ELSE SQ IN
   {<<"plain", <<97>>, <<97>>>>, <<"space", <<32>>, <<32>>>>, <<"percent", <<37>>, <<37>>>>,
-   <<"nonascii", <<233>>, <<233>>>>, <<"otherquote", <<o>>, <<o>>>>, <<"dot", <<DOT>>, <<DOT>>>>}
+   <<"nonascii", <<233>>, <<233>>>>, <<"otherquote", <<o>>, <<o>>>>, <<"dot", <<DOT>>, <<DOT>>>>,
+   \* line ends inside a literal are characters of the value like any other (LF, and the two-character CR LF)
+   <<"newline", <<10>>, <<10>>>>, <<"crlf", <<13, 10>>, <<13, 10>>>>}
   \cup (IF HasDbl(style) THEN {<<"doubled", <<q, q>>, <<q>>>>} ELSE {})
   \cup (IF HasBS(style) THEN {<<"bs-quote", <<BS, q>>, <<q>>>>, <<"bs-otherquote", <<BS, o>>, <<o>>>>,
                               <<"bs-bs", <<BS, BS>>, <<BS>>>>}
